@@ -1,18 +1,23 @@
+import importlib.util, os
+_p = os.path.join(os.path.dirname(os.path.dirname(os.path.abspath(__file__))), "C01", "plan.py")
+_s = importlib.util.spec_from_file_location("plan_C01_for_C10", _p); _m = importlib.util.module_from_spec(_s); _s.loader.exec_module(_m)
 PLAN = dict(
-    id="C10", level="other", explanation="Value routing: for every primitive Value impl (u8..u128, i8..i128, usize, isize, bool, f32, f64, NonZero*, Wrapping, str, [u8], &T, Box<T>, Empty, display/debug wrappers) record() makes exactly one call of the stated visitor method with exactly the value (full domain; widening casts value-preserving; f32 widened bit-exactly), Empty makes none. ValueSet::record visits the Some values of its own callsite once each in declaration order (bounded: 4 fields, each own/foreign, Some/None). The macro-form catalogue ('evaluated once iff enabled') is not built: it needs the real macros under the global registry, measured too expensive for CBMC (DESIGN.md section 7).",
+    id="C10", level="other", explanation="Value routing: for every primitive Value impl (u8..u128, i8..i128, usize, isize, bool, f32, f64, NonZero*, Wrapping, str, [u8], &T, Box<T>, Empty, display/debug wrappers) record() makes exactly one call of the stated visitor method with exactly the value (full domain; widening casts value-preserving; f32 widened bit-exactly), Empty makes none. ValueSet::record visits the Some values of its own callsite once each in declaration order (bounded: 4 fields, each own/foreign, Some/None). Macro layer (real event!/span! expansions and MacroCallsite, tracing-core's global state replaced by its contracts as in C01): a catalogue of forms - named fields, shorthand, `?` / `%` sigils in every position with identifier, dotted and string-literal names, Empty, format-string message - has every field / message expression evaluated exactly once when enabled and not at all when disabled by ANY stage (published max level, cached never, dynamic enabled = false), fields visited once each in declaration order with the message first, `%` rendering Display and `?` rendering Debug.",
     functions_under_contract=['tracing-core/src/field.rs: impl_values! Value impls, Value for str / [u8] / &T / Box<T> / Wrapping / Empty / DisplayValue / DebugValue, ValueSet::record, FieldSet::{field,value_set}'],
-    trusted_base=["Kani 0.68 / CBMC 6.11 / CaDiCaL; Kani's std build (nightly-2026-08-21), not the repo toolchain's", 'core::fmt::Formatter::pad stubbed to Ok(()) with -Z stubbing (panic-message formatting on infeasible error branches; no harness that uses it reads formatted text)', 'cfg(kani) thread_local! shim and once_cell::sync::Lazy contract stub (see overlay_additions)'],
+    trusted_base=["Kani 0.68 / CBMC 6.11 / CaDiCaL; Kani's std build (nightly-2026-08-21), not the repo toolchain's", 'core::fmt::Formatter::pad stubbed to Ok(()) with -Z stubbing (panic-message formatting on infeasible error branches; no harness that uses it reads formatted text)', 'cfg(kani) thread_local! shim and once_cell::sync::Lazy contract stub (see overlay_additions)', 'macro harnesses: dispatch::get_default, LevelFilter::current and callsite::register replaced by contract stubs over tagged harness state (their contracts are C02 / C19 / C01)'],
     assumptions=["the text a %/? sigil produces is core::fmt's (only the routing to record_debug is checked)"],
-    not_covered=['macro forms: field expressions evaluated exactly once when enabled and not at all when disabled; declaration order of macro-built value sets; message-first ordering (tracing/src/macros.rs valueset!/fieldset!) - not decided', 'dyn Error values', 'Span::record through the macro-declared field set (C03 covers declared/undeclared)'],
+    not_covered=['macro forms outside the catalogue (parent:/target:/name: prefixes, the level-named shorthands, tracing-attributes)', 'dyn Error values', 'Span::record through the macro-declared field set (C03 covers declared/undeclared)'],
     kani=[dict(
         crate="tracing-core", tls_shim=True, once_cell_stub=True,
         modules=[dict(name="__verif_c10", attach="lib", files=["../common/core_prelude.rs", "../common/core_stub.rs", "values.kani.rs"])],
     ), dict(
-        crate="tracing", tls_shim_crates=["tracing-core"], once_cell_stub=True, tag="macros", jobs=2, timeout_s=3000,
+        crate="tracing", tls_shim_crates=["tracing-core"], once_cell_stub=True, tag="macros",
         modules=[dict(name="__verif_c10m", attach="lib", files=["macro_forms.kani.rs"])],
+        append=[dict(file="tracing-core/src/dispatch.rs", text=_m.DISPATCH_HELPER, kind="cfg(kani) constructor helper"),
+                dict(file="tracing-core/src/callsite.rs", text=_m.REG_HELPER, kind="cfg(kani) accessor helper")],
     )],
-    manifest=dict(technique='full-domain routing contracts for every Value impl and a bounded ValueSet::record order check on the real tracing-core (Kani)',
-        text="Partial: the typed-routing and ordering clauses of the statement are decided for the data layer (tracing-core); the macro layer's evaluate-once clause is not decided by this technique within the time/memory budget and is listed as not covered.",
-        note='Bound: ValueSet of 4 fields. Macro forms not covered.',
+    manifest=dict(technique='full-domain routing contracts for every Value impl, a bounded ValueSet::record order check on the real tracing-core, and a catalogue of real macro expansions over contract stubs of the global state (Kani)',
+        text="Typed routing and ordering are decided for the data layer (tracing-core) for all values; the macro layer's evaluate-once / not-at-all, order, naming and sigil clauses are decided for a catalogue of forms through the real macros, for every filtering stage. 'Every macro form' is a catalogue, not a proof over the macro grammar, hence `other`.",
+        note='Bound: ValueSet of 4 fields. Macro forms: catalogue of 4 harnesses / 7 forms.',
         design_ref="DESIGN.md section 4, C10"),
 )
